@@ -194,7 +194,9 @@ impl WorkerResources {
     pub fn add(&mut self, rq: &ResourceRequest, all: &WorkerResources) {
         for entry in rq.entries() {
             if let Some(amount) = entry.request.amount_or_none_if_all() {
-                self.n_resources[entry.resource_id] += amount;
+                // (`remove` saturates at zero, so the sum may otherwise exceed what the worker has)
+                self.n_resources[entry.resource_id] =
+                    (self.n_resources[entry.resource_id] + amount).min(all.get(entry.resource_id));
             } else {
                 self.n_resources[entry.resource_id] = all.get(entry.resource_id);
             }
@@ -204,7 +206,9 @@ impl WorkerResources {
     pub fn add_multiple(&mut self, rq: &ResourceRequest, all: &WorkerResources, n: u32) {
         for entry in rq.entries() {
             if let Some(amount) = entry.request.amount_or_none_if_all() {
-                self.n_resources[entry.resource_id] += amount.times(n);
+                self.n_resources[entry.resource_id] = (self.n_resources[entry.resource_id]
+                    + amount.times(n))
+                .min(all.get(entry.resource_id));
             } else {
                 self.n_resources[entry.resource_id] = all.get(entry.resource_id);
             }
